@@ -157,6 +157,11 @@ pub fn run(args: &Args) {
             let mut cmd = std::process::Command::new(&exe);
             cmd.args(["c11-child", "--seed", &args.seed().to_string(), "--idx", &idx.to_string(), "--k", &k.to_string()])
                 .env("TZ", tzs[k % tzs.len()])
+                // everything a build might pick up from its surroundings differs between the processes
+                .env("HOSTNAME", format!("buildhost-{k}.example.org")).env("HOST", format!("h{k}"))
+                .env("USER", format!("user{k}")).env("LOGNAME", format!("user{k}")).env("HOME", format!("/nonexistent/home{k}"))
+                .env("LANG", ["C", "de_DE.UTF-8", "ja_JP.UTF-8"][k % 3]).env("LC_ALL", ["C", "de_DE.UTF-8", "ja_JP.UTF-8"][k % 3])
+                .env("TMPDIR", { let d = std::env::temp_dir().join(format!("rpm_verif_c11_tmp{k}")); let _ = std::fs::create_dir_all(&d); d })
                 .env("RPM_VERIF_PADDING", "x".repeat(1 + 997 * k))
                 .current_dir(if k % 2 == 0 { "/" } else { "/tmp" });
             match cmd.output() {
